@@ -890,9 +890,11 @@ def _out_of_domain(t):
 
 
 def _beyond_magnitude(t, lim=2 ** 31):
+    """integers are int64 (or unbounded Python ints) on both paths: judged up to 2^62; reals beyond 2^31 are
+    where float32 spacing exceeds 1 and whole-number tests flip"""
     import re
     for z in re.findall(r"\(i (-?\d+)\)", t):
-        if abs(int(z)) >= lim:
+        if abs(int(z)) >= 2 ** 62:
             return True
     for z in re.findall(r"\(r (\d+)\)", t):
         z = int(z)
